@@ -195,63 +195,63 @@ func genNegotiate(c *core.Ctx) {
 	for _, ms := range mshapes {
 		for _, cs := range cshapes {
 			for _, si := range integ5 {
-			for _, ci := range integ5 {
-			table := make([]int, 625)
-			for i := range table {
-				table[i] = -1
-			}
-			m0, k0 := "", ""
-			first := true
-			for _, sa := range seven {
-				for _, ca := range seven {
-					for _, se := range seven {
-						for _, ce := range seven {
-							g := func(s string) string {
-								if s == "G" {
-									n++
-									return garbage[n%len(garbage)]
+				for _, ci := range integ5 {
+					table := make([]int, 625)
+					for i := range table {
+						table[i] = -1
+					}
+					m0, k0 := "", ""
+					first := true
+					for _, sa := range seven {
+						for _, ca := range seven {
+							for _, se := range seven {
+								for _, ce := range seven {
+									g := func(s string) string {
+										if s == "G" {
+											n++
+											return garbage[n%len(garbage)]
+										}
+										return s
+									}
+									nc := negCase{"neg", g(sa), g(ca), g(se), g(ce), si, ci, ms.s, ms.c, cs.s, cs.c}
+									neg, err := nc.run()
+									c.Count("negotiateSecurity")
+									c.Evaluated(1)
+									if first {
+										m0, k0, first = string(neg.NegotiatedAuth), string(neg.NegotiatedCrypto), false
+									}
+									code := 0
+									if err != nil {
+										code |= 1
+									}
+									if neg.Authentication {
+										code |= 2
+									}
+									if neg.Encryption {
+										code |= 4
+									}
+									if neg.Enact {
+										code |= 8
+									}
+									li := ((lidx[lvlTerm(nc.SA)]*5+lidx[lvlTerm(nc.CA)])*5+lidx[lvlTerm(nc.SE)])*5 + lidx[lvlTerm(nc.CE)]
+									if string(neg.NegotiatedAuth) != m0 || string(neg.NegotiatedCrypto) != k0 || (table[li] >= 0 && table[li] != code) {
+										// strings of the same class behaving differently: keep the individual case
+										bt.add(negTerm(nc), nc)
+										continue
+									}
+									table[li] = code
 								}
-								return s
 							}
-							nc := negCase{"neg", g(sa), g(ca), g(se), g(ce), si, ci, ms.s, ms.c, cs.s, cs.c}
-							neg, err := nc.run()
-							c.Count("negotiateSecurity")
-							c.Evaluated(1)
-							if first {
-								m0, k0, first = string(neg.NegotiatedAuth), string(neg.NegotiatedCrypto), false
-							}
-							code := 0
-							if err != nil {
-								code |= 1
-							}
-							if neg.Authentication {
-								code |= 2
-							}
-							if neg.Encryption {
-								code |= 4
-							}
-							if neg.Enact {
-								code |= 8
-							}
-							li := ((lidx[lvlTerm(nc.SA)]*5+lidx[lvlTerm(nc.CA)])*5+lidx[lvlTerm(nc.SE)])*5 + lidx[lvlTerm(nc.CE)]
-							if string(neg.NegotiatedAuth) != m0 || string(neg.NegotiatedCrypto) != k0 || (table[li] >= 0 && table[li] != code) {
-								// strings of the same class behaving differently: keep the individual case
-								bt.add(negTerm(nc), nc)
-								continue
-							}
-							table[li] = code
 						}
 					}
+					codes := make([]byte, 625)
+					for i, v := range table {
+						codes[i] = byte(v)
+					}
+					bt.flush()
+					c.AddCaseW(fmt.Sprintf("[(CNegT %s %s %s %s %s %s %s %s %s)]", lvlTerm(si), lvlTerm(ci), methList(ms.s), methList(ms.c), ciphList(cs.s), ciphList(cs.c),
+						methTerm(m0), ciphOpt(k0), core.Hex(codes)), negCase{Kind: "neg-table", SI: si, CI: ci, SM: ms.s, CM: ms.c, SC: cs.s, CC: cs.c}, 25)
 				}
-			}
-			codes := make([]byte, 625)
-			for i, v := range table {
-				codes[i] = byte(v)
-			}
-			bt.flush()
-			c.AddCaseW(fmt.Sprintf("[(CNegT %s %s %s %s %s %s %s %s %s)]", lvlTerm(si), lvlTerm(ci), methList(ms.s), methList(ms.c), ciphList(cs.s), ciphList(cs.c),
-				methTerm(m0), ciphOpt(k0), core.Hex(codes)), negCase{Kind: "neg-table", SI: si, CI: ci, SM: ms.s, CM: ms.c, SC: cs.s, CC: cs.c}, 25)
-			}
 			}
 		}
 	}
@@ -322,6 +322,13 @@ type hsSpec struct {
 	CTok string `json:"ctok,omitempty"`
 	// the server holds no signing key (a usable-looking token cannot be verified)
 	SNoKey bool `json:"snokey,omitempty"`
+	// The server's authenticator is built with SDef as its (connection default) config and a
+	// ServerConfigForCommand hook: the hook returns S, the policy in force for the handshake --
+	// or nil when SHookNil is set (then S repeats SDef: the default stays in force).  The table,
+	// the model and the oracle speak about S only: the lists a server advertises and negotiates
+	// with must be those of the policy in force.
+	SDef     *peer.Policy `json:"sdef,omitempty"`
+	SHookNil bool         `json:"shooknil,omitempty"`
 }
 
 // what the client's token pre-filter (hasCompatibleToken) must answer for this spec: the
@@ -593,7 +600,18 @@ func runHonest(sp hsSpec) hsObs {
 		if sp.Tok && !sp.SNoKey {
 			scfg = world().Server(scfg)
 		}
-		sr = peer.RunServer(sa, scfg)
+		if sp.SDef != nil {
+			dcfg := sp.SDef.Config()
+			if sp.Tok && !sp.SNoKey {
+				dcfg = world().Server(dcfg)
+			}
+			if sp.SHookNil {
+				scfg = nil
+			}
+			sr = peer.RunServerPerCommand(sa, dcfg, scfg)
+		} else {
+			sr = peer.RunServer(sa, scfg)
+		}
 		if sr.Err != nil {
 			sa.Close()
 		}
@@ -1041,6 +1059,86 @@ func genHonest(c *core.Ctx) error {
 			}
 		}
 	}
+	// per-command policies (ServerConfigForCommand): the policy in force differs from the
+	// authenticator's default in its method and cipher LISTS (not contained in / contained in /
+	// disjoint from / a reordering of the default's, default empty), the levels of the default
+	// rotating; the hook returning nil (default in force).  What the server advertises and
+	// negotiates with must be the lists of the policy in force.
+	type pcshape struct {
+		name       string
+		c          []string // client methods
+		s, d       []string // per-command / default methods
+		cc, sc, dc []string // ciphers likewise
+	}
+	aes := []string{"AES"}
+	pcs := []pcshape{
+		{"meths-not-contained", []string{"FS"}, []string{"FS", "CLAIMTOBE"}, []string{"CLAIMTOBE"}, aes, aes, aes},
+		{"meths-contained", []string{"FS", "CLAIMTOBE"}, []string{"CLAIMTOBE"}, []string{"FS", "CLAIMTOBE"}, aes, aes, aes},
+		{"meths-disjoint", []string{"FS", "CLAIMTOBE"}, []string{"FS"}, []string{"CLAIMTOBE"}, aes, aes, aes},
+		{"meths-disjoint-client-default-only", []string{"CLAIMTOBE"}, []string{"FS"}, []string{"CLAIMTOBE"}, aes, aes, aes},
+		{"meths-reordered", []string{"CLAIMTOBE", "FS"}, []string{"CLAIMTOBE", "FS"}, []string{"FS", "CLAIMTOBE"}, aes, aes, aes},
+		{"meths-default-empty", []string{"CLAIMTOBE"}, []string{"CLAIMTOBE"}, nil, aes, aes, aes},
+		{"meths-percmd-stub-default-usable", []string{"PASSWORD", "CLAIMTOBE"}, []string{"PASSWORD"}, []string{"CLAIMTOBE"}, aes, aes, aes},
+		{"ciphers-default-other", []string{"CLAIMTOBE"}, []string{"CLAIMTOBE"}, []string{"CLAIMTOBE"}, aes, aes, []string{"BLOWFISH"}},
+		{"ciphers-percmd-none-default-aes", []string{"CLAIMTOBE"}, []string{"CLAIMTOBE"}, []string{"CLAIMTOBE"}, aes, nil, aes},
+		{"ciphers-percmd-aes-default-none", []string{"CLAIMTOBE"}, []string{"CLAIMTOBE"}, []string{"CLAIMTOBE"}, aes, aes, nil},
+		{"ciphers-reordered", []string{"CLAIMTOBE"}, []string{"CLAIMTOBE"}, []string{"CLAIMTOBE"}, []string{"3DES", "AES"}, []string{"AES", "3DES"}, []string{"3DES", "AES"}},
+		{"both-differ", []string{"FS"}, []string{"FS"}, []string{"CLAIMTOBE", "PASSWORD"}, aes, []string{"BLOWFISH", "AES"}, []string{"BLOWFISH"}},
+	}
+	pcEnc := [][2]string{{"OPTIONAL", "OPTIONAL"}, {"REQUIRED", "OPTIONAL"}, {"OPTIONAL", "REQUIRED"}, {"PREFERRED", "PREFERRED"}}
+	pcn := 0
+	for _, ps := range pcs {
+		for _, ca := range fourLevels {
+			for _, sa := range fourLevels {
+				for ei, e := range pcEnc {
+					pcn++
+					if c.Quick() && (pcn/4+ei)%2 != 0 {
+						continue
+					}
+					// the default's own levels rotate over all four names: they must not matter
+					def := &peer.Policy{Auth: fourLevels[pcn%4], Enc: fourLevels[(pcn/4)%4], Integ: nonReqInteg[pcn%3], Methods: ps.d, Ciphers: ps.dc}
+					specs = append(specs, hsSpec{Kind: "hs", SDef: def,
+						C: peer.Policy{Auth: ca, Enc: e[0], Integ: "OPTIONAL", Methods: ps.c, Ciphers: ps.cc, Command: 60007},
+						S: peer.Policy{Auth: sa, Enc: e[1], Integ: "OPTIONAL", Methods: ps.s, Ciphers: ps.sc}})
+					if pcn%8 < 2 { // the hook declines: the default is the policy in force
+						d2 := *def
+						d2.Auth, d2.Enc, d2.Integ = sa, e[1], "OPTIONAL"
+						specs = append(specs, hsSpec{Kind: "hs", SDef: &d2, SHookNil: true,
+							C: peer.Policy{Auth: ca, Enc: e[0], Integ: "OPTIONAL", Methods: ps.c, Ciphers: ps.cc, Command: 60007}, S: d2})
+					}
+				}
+			}
+		}
+	}
+	// cipher names: AES-256-GCM goes by the name "AES" on a freshly negotiated session; "AESGCM"
+	// (the name inherited sessions record), other spellings, the unimplemented ciphers and unknown
+	// names in both orders on both sides, all 4^2 Encryption pairs (REQUIRED on either side
+	// included) x two Authentication pairs
+	type cshape2 struct{ c, s []string }
+	css := []cshape2{
+		{[]string{"AES"}, []string{"AESGCM", "AES"}}, {[]string{"AES"}, []string{"AES", "AESGCM"}},
+		{[]string{"AESGCM", "AES"}, []string{"AES"}}, {[]string{"AES", "AESGCM"}, []string{"AESGCM"}},
+		{[]string{"AESGCM"}, []string{"AESGCM"}}, {[]string{"AESGCM"}, []string{"AES"}},
+		{[]string{"aes"}, []string{"AES"}}, {[]string{"AES"}, []string{"aes", "AES"}},
+		{[]string{"AES-GCM", "AES"}, []string{"AES-GCM", "AES"}}, {[]string{"BLOWFISH", "AES"}, []string{"3DES", "BLOWFISH", "AES"}},
+		{[]string{"FOO", "AES"}, []string{"AES", "FOO"}}, {[]string{"3DES", "AESGCM"}, []string{"AESGCM", "3DES"}},
+	}
+	csn := 0
+	for _, cs := range css {
+		for _, ce := range fourLevels {
+			for _, se := range fourLevels {
+				for ai, a := range [][2]string{{"OPTIONAL", "OPTIONAL"}, {"REQUIRED", "PREFERRED"}} {
+					csn++
+					if c.Quick() && ce != "REQUIRED" && se != "REQUIRED" && (csn/2+ai)%2 != 0 {
+						continue
+					}
+					specs = append(specs, hsSpec{Kind: "hs",
+						C: peer.Policy{Auth: a[0], Enc: ce, Integ: nonReqInteg[csn%3], Methods: []string{"CLAIMTOBE"}, Ciphers: cs.c, Command: 60007},
+						S: peer.Policy{Auth: a[1], Enc: se, Integ: nonReqInteg[(csn/3)%3], Methods: []string{"CLAIMTOBE"}, Ciphers: cs.s}})
+				}
+			}
+		}
+	}
 	// ... and the same lists with no token world at all (Tok unset: no token, no signing key)
 	for _, ps := range pshapes[:2] {
 		for _, ca := range fourLevels {
@@ -1097,6 +1195,9 @@ func genHonest(c *core.Ctx) error {
 			}
 		default:
 			c.Count("hs-failed-other class=" + o.CClass)
+		}
+		if sp.SDef != nil {
+			c.Count(fmt.Sprintf("hs-per-command-policy hook-nil=%v", sp.SHookNil))
 		}
 		if sp.Tok && (sp.CTok != "" || sp.SNoKey) {
 			c.Count("hs-token-prefilter kind=" + sp.tokKind() + fmt.Sprintf(" nokey=%v", sp.SNoKey))
